@@ -169,6 +169,20 @@ fn try_apply(state: &mut State, f: Value, x: Value) -> String {
     swallow(state, r)
 }
 
+/// `{{ dbgstate() }}` / `{{ dbgstate(true) }}`: a Rust callable that formats the `State`
+fn dbgstate(state: &State, pretty: Option<bool>) -> String {
+    if pretty.unwrap_or(false) {
+        format!("{state:#?}")
+    } else {
+        format!("{state:?}")
+    }
+}
+
+/// `{{ dbgenv() }}`: a Rust callable that formats the `Environment`
+fn dbgenv(state: &State) -> String {
+    format!("{:?}", state.env())
+}
+
 /// `{{ rblock('a') }}`: `State::render_block` from a Rust function
 fn rblock(state: &mut State, name: String) -> Result<Value, Error> {
     state.render_block(&name).map(Value::from)
@@ -181,7 +195,8 @@ fn cmacro(state: &mut State, name: String) -> Result<Value, Error> {
 
 #[derive(Clone, PartialEq, Debug)]
 enum Outcome {
-    Ok(String),
+    /// output, Debug form of the `Captured` (contains the state)
+    Ok(String, String),
     Err(String, String),
     Panic(String),
 }
@@ -197,12 +212,55 @@ struct RunOut {
     swallowed: usize,
 }
 
+/// the chain of kinds from the reported error down to its root cause (`source()`), and every
+/// text form of the error: Display, alternate Display (with debug info), Debug
+fn err_outcome(e: &Error) -> Outcome {
+    let mut kinds = vec![format!("{:?}", e.kind())];
+    let mut msgs = vec![e.to_string(), format!("{:#}", e), format!("{:?}", e)];
+    let mut cur: &dyn std::error::Error = e;
+    while let Some(next) = cur.source() {
+        match next.downcast_ref::<Error>() {
+            Some(me) => kinds.push(format!("{:?}", me.kind())),
+            None => kinds.push("Foreign".to_string()),
+        }
+        msgs.push(next.to_string());
+        cur = next;
+    }
+    Outcome::Err(kinds.join(">"), msgs.join(" <- "))
+}
+
 fn build_env(prog: &Prog) -> Result<Environment<'static>, String> {
+    build_env_variant(prog, "")
+}
+
+const VARIANTS: [&str; 8] = ["debug_off", "undefined_chainable", "undefined_semistrict", "formatter", "autoescape_html",
+                             "autoescape_none", "whitespace", "recursion_limit"];
+
+/// the same program in an environment with other settings that do not change what it executes
+/// (when they do, the traces differ and only the general oracle applies)
+fn build_env_variant(prog: &Prog, variant: &str) -> Result<Environment<'static>, String> {
     let mut env = Environment::new();
+    match variant {
+        "debug_off" => env.set_debug(false),
+        "undefined_chainable" => env.set_undefined_behavior(minijinja::UndefinedBehavior::Chainable),
+        "undefined_semistrict" => env.set_undefined_behavior(minijinja::UndefinedBehavior::SemiStrict),
+        "formatter" => env.set_formatter(|out, state, value| minijinja::escape_formatter(out, state, value)),
+        "autoescape_html" => env.set_auto_escape_callback(|_| minijinja::AutoEscape::Html),
+        "autoescape_none" => env.set_auto_escape_callback(|_| minijinja::AutoEscape::None),
+        "whitespace" => {
+            env.set_keep_trailing_newline(true);
+            env.set_trim_blocks(true);
+            env.set_lstrip_blocks(true);
+        }
+        "recursion_limit" => env.set_recursion_limit(120),
+        _ => {}
+    }
     env.add_function("probe", probe);
     env.add_function("apply", apply);
     env.add_function("rblock", rblock);
     env.add_function("cmacro", cmacro);
+    env.add_function("dbgstate", dbgstate);
+    env.add_function("dbgenv", dbgenv);
     env.add_function("try_macro", try_macro);
     env.add_function("try_block", try_block);
     env.add_function("try_apply", try_apply);
@@ -231,35 +289,21 @@ fn run(env: &mut Environment<'static>, prog: &Prog, fuel: Option<u64>, collect: 
     });
     let ctx = Value::from(Serde(&prog.ctx));
     let env_ref: &Environment<'static> = env;
-    let res = guarded(|| -> Result<(String, Option<(u64, u64)>), Error> {
+    let res = guarded(|| -> Result<(String, String, Option<(u64, u64)>), Error> {
         if prog.mode == "expr" {
             let e = env_ref.compile_expression(&prog.templates[0].1)?;
             let v = e.eval(ctx)?;
-            Ok((format!("{:?}:{}", v.kind(), v), None))
+            Ok((format!("{:?}:{}", v.kind(), v), format!("{:?}", v), None))
         } else {
             let t = env_ref.get_template(&prog.templates[0].0)?;
             let cap = t.render_captured(ctx)?;
             let lv = cap.state().fuel_levels();
-            Ok((cap.output().to_string(), lv))
+            Ok((cap.output().to_string(), format!("{:?}", cap), lv))
         }
     });
     let (outcome, levels) = match res {
-        Ok(Ok((s, lv))) => (Outcome::Ok(s), lv),
-        Ok(Err(e)) => {
-            // the chain of kinds from the reported error down to its root cause (`source()`)
-            let mut kinds = vec![format!("{:?}", e.kind())];
-            let mut msgs = vec![e.to_string()];
-            let mut cur: &dyn std::error::Error = &e;
-            while let Some(next) = cur.source() {
-                match next.downcast_ref::<Error>() {
-                    Some(me) => kinds.push(format!("{:?}", me.kind())),
-                    None => kinds.push("Foreign".to_string()),
-                }
-                msgs.push(next.to_string());
-                cur = next;
-            }
-            (Outcome::Err(kinds.join(">"), msgs.join(" <- ")), None)
-        }
+        Ok(Ok((s, d, lv))) => (Outcome::Ok(s, d), lv),
+        Ok(Err(e)) => (err_outcome(&e), None),
         Err(msg) => (Outcome::Panic(msg), None),
     };
     REC.with(|r| {
@@ -273,13 +317,258 @@ fn tag(o: &Outcome, target: &Outcome) -> String {
         return "same".into();
     }
     match o {
-        Outcome::Ok(_) => "diff-output".into(),
+        Outcome::Ok(s, _) => match target {
+            Outcome::Ok(s2, _) if s == s2 => "diff-captured-debug".into(),
+            _ => "diff-output".into(),
+        },
         Outcome::Err(k, m) => match target {
             Outcome::Err(k2, _) if k == k2 => format!("err:{}:diff-message:{}", k, m),
             _ => format!("err:{}", k),
         },
         Outcome::Panic(m) => format!("panic:{}", m),
     }
+}
+
+/// other ways to run the same program; the budget semantics must be the same
+const TEMPLATE_ENTRIES: [&str; 10] = [
+    "render", "render_captured_to", "render_str", "render_named_str", "template_from_str.render",
+    "template_from_named_str.render_captured", "clone.render", "clone_then_change_original", "set_other_then_this",
+    "set_this_then_none",
+];
+const EXPR_ENTRIES: [&str; 3] = ["compile_expression_owned.eval", "clone.compile_expression.eval", "set_this_then_none"];
+
+fn run_entry(env: &mut Environment<'static>, prog: &Prog, entry: &str, fuel: Option<u64>) -> RunOut {
+    REC.with(|r| {
+        let mut r = r.borrow_mut();
+        r.cache.clear(); // temporary templates reuse addresses
+        r.collect = false;
+        r.count = 0;
+        r.mismatch = false;
+        r.sticky_bad = 0;
+        r.swallowed = 0;
+        r.probes.clear();
+    });
+    let ctx = Value::from(Serde(&prog.ctx));
+    let name = prog.templates[0].0.clone();
+    let src = prog.templates[0].1.clone();
+    let is_expr = prog.mode == "expr";
+    // configuration path
+    let mut other: Option<Environment<'static>> = None;
+    match entry {
+        "set_other_then_this" => {
+            env.set_fuel(Some(1));
+            env.set_fuel(None);
+            env.set_fuel(fuel);
+        }
+        "set_this_then_none" => {
+            env.set_fuel(fuel);
+            env.set_fuel(None);
+        }
+        "clone_then_change_original" => {
+            env.set_fuel(fuel);
+            other = Some(env.clone());
+            env.set_fuel(Some(0));
+        }
+        "clone.render" | "clone.compile_expression.eval" => {
+            env.set_fuel(fuel);
+            other = Some(env.clone());
+        }
+        _ => env.set_fuel(fuel),
+    }
+    let e: &Environment<'static> = other.as_ref().unwrap_or(env);
+    let show = |v: Value| format!("{:?}:{}", v.kind(), v);
+    let res = guarded(|| -> Result<(String, Option<(u64, u64)>), Error> {
+        if is_expr {
+            return match entry {
+                "compile_expression_owned.eval" => e.compile_expression_owned(src.clone())?.eval(ctx).map(|v| (show(v), None)),
+                _ => e.compile_expression(&src)?.eval(ctx).map(|v| (show(v), None)),
+            };
+        }
+        match entry {
+            "render_captured_to" => {
+                let mut buf: Vec<u8> = vec![];
+                let cap = e.get_template(&name)?.render_captured_to(ctx, &mut buf)?;
+                let lv = cap.state().fuel_levels();
+                Ok((String::from_utf8_lossy(&buf).to_string() + cap.output(), lv))
+            }
+            "render_str" => e.render_str(&src, ctx).map(|s| (s, None)),
+            "render_named_str" => e.render_named_str(&name, &src, ctx).map(|s| (s, None)),
+            "template_from_str.render" => e.template_from_str(&src)?.render(ctx).map(|s| (s, None)),
+            "template_from_named_str.render_captured" => {
+                let cap = e.template_from_named_str(&name, &src)?.render_captured(ctx)?;
+                let lv = cap.state().fuel_levels();
+                Ok((cap.output().to_string(), lv))
+            }
+            _ => e.get_template(&name)?.render(ctx).map(|s| (s, None)),
+        }
+    });
+    let (outcome, levels) = match res {
+        Ok(Ok((s, lv))) => (Outcome::Ok(s, String::new()), lv),
+        Ok(Err(e)) => (err_outcome(&e), None),
+        Err(msg) => (Outcome::Panic(msg), None),
+    };
+    REC.with(|r| {
+        let r = r.borrow();
+        RunOut { outcome, levels, n: r.count, mismatch: r.mismatch, probes: r.probes.clone(), sticky_bad: r.sticky_bad, swallowed: r.swallowed }
+    })
+}
+
+/// `Template::new_state()` + `State::render_block(name)`: an evaluation of its own
+fn run_block_entry(env: &mut Environment<'static>, prog: &Prog, block: &str, fuel: Option<u64>, collect: bool) -> RunOut {
+    env.set_fuel(fuel);
+    REC.with(|r| {
+        let mut r = r.borrow_mut();
+        r.collect = collect;
+        r.count = 0;
+        r.mismatch = false;
+        r.sticky_bad = 0;
+        r.swallowed = 0;
+        r.probes.clear();
+        if collect {
+            r.trace.clear();
+        }
+    });
+    let e: &Environment<'static> = env;
+    let res = guarded(|| -> Result<(String, Option<(u64, u64)>), Error> {
+        let t = e.get_template(&prog.templates[0].0)?;
+        let mut st = t.new_state();
+        let out = st.render_block(block);
+        let lv = st.fuel_levels();
+        out.map(|s| (s, lv))
+    });
+    let (outcome, levels) = match res {
+        Ok(Ok((s, lv))) => (Outcome::Ok(s, String::new()), lv),
+        Ok(Err(e)) => (err_outcome(&e), None),
+        Err(msg) => (Outcome::Panic(msg), None),
+    };
+    REC.with(|r| {
+        let r = r.borrow();
+        RunOut { outcome, levels, n: r.count, mismatch: r.mismatch, probes: r.probes.clone(), sticky_bad: r.sticky_bad, swallowed: r.swallowed }
+    })
+}
+
+/// smallest budget in [0, 2^22] for which `f` gives the target (assuming monotonicity)
+fn bisect(mut same: impl FnMut(u64) -> bool) -> Option<u64> {
+    if same(0) {
+        return Some(0);
+    }
+    let mut hi: u64 = 1;
+    while !same(hi) {
+        hi *= 2;
+        if hi > (1 << 22) {
+            return None;
+        }
+    }
+    let mut lo = hi / 2;
+    while hi - lo > 1 {
+        let mid = lo + (hi - lo) / 2;
+        if same(mid) {
+            hi = mid;
+        } else {
+            lo = mid;
+        }
+    }
+    Some(hi)
+}
+
+fn few_budgets(thr: u64) -> Vec<u64> {
+    let mut b = vec![0, thr.saturating_sub(1), thr, thr + 5, 1 << 63, u64::MAX];
+    b.sort();
+    b.dedup();
+    b
+}
+
+fn extras(env: &mut Environment<'static>, prog: &Prog, thr: u64, t0: &[u16], res: &mut serde_json::Value) {
+    // --- entry points and configuration path (same trace, hence the same threshold)
+    let mut entries = vec![];
+    let list: &[&str] = if prog.mode == "expr" { &EXPR_ENTRIES } else { &TEMPLATE_ENTRIES };
+    for entry in list {
+        REC.with(|r| r.borrow_mut().reference = t0.to_vec());
+        let target = run_entry(env, prog, entry, None);
+        if matches!(target.outcome, Outcome::Panic(_)) {
+            continue;
+        }
+        let mut runs = vec![];
+        for b in few_budgets(thr) {
+            let r = run_entry(env, prog, entry, Some(b));
+            runs.push(json!([b, tag(&r.outcome, &target.outcome), r.levels.map(|x| x.0), r.levels.map(|x| x.1), r.n, r.mismatch as u8]));
+        }
+        entries.push(json!({"name": entry, "unmetered": *entry == "set_this_then_none",
+                            "unl_n": target.n, "unl_mismatch": target.mismatch, "runs": runs}));
+    }
+    res["entries"] = json!(entries);
+    REC.with(|r| r.borrow_mut().cache.clear());
+
+    // --- blocks rendered through a stand-alone state
+    let mut blocks = vec![];
+    if prog.mode == "template" {
+        let names: Vec<String> = match env.get_template(&prog.templates[0].0) {
+            Ok(t) => get_compiled_template(&t).blocks.keys().map(|k| k.to_string()).collect(),
+            Err(_) => vec![],
+        };
+        for name in names.iter().take(3) {
+            let u = run_block_entry(env, prog, name, None, true);
+            if matches!(u.outcome, Outcome::Panic(_)) {
+                continue;
+            }
+            let tb: Vec<u16> = REC.with(|r| r.borrow().trace.clone());
+            REC.with(|r| r.borrow_mut().reference = tb.clone());
+            let names_tbl: Vec<String> = REC.with(|r| r.borrow().names.clone());
+            let trace: Vec<&str> = tb.iter().map(|i| names_tbl[*i as usize].as_str()).collect();
+            let target = u.outcome.clone();
+            let bthr = bisect(|b| run_block_entry(env, prog, name, Some(b), false).outcome == target);
+            let mut runs = vec![];
+            if let Some(bthr) = bthr {
+                let mut bs: Vec<u64> = (0..=bthr.min(60) + 3).collect();
+                bs.extend(few_budgets(bthr));
+                bs.sort();
+                bs.dedup();
+                for b in bs {
+                    let r = run_block_entry(env, prog, name, Some(b), false);
+                    runs.push(json!([b, tag(&r.outcome, &target), r.levels.map(|x| x.0), r.levels.map(|x| x.1), r.n, r.mismatch as u8]));
+                }
+            }
+            blocks.push(json!({"name": name, "thr": bthr, "trace": trace.join(" "), "runs": runs}));
+        }
+    }
+    res["blocks"] = json!(blocks);
+    REC.with(|r| r.borrow_mut().reference = t0.to_vec());
+
+    // --- the same program under other environment settings
+    let mut variants = vec![];
+    for v in VARIANTS {
+        let Ok(mut env2) = build_env_variant(prog, v) else { continue };
+        REC.with(|r| r.borrow_mut().cache.clear());
+        let u = run(&mut env2, prog, None, true);
+        if matches!(u.outcome, Outcome::Panic(_)) {
+            continue;
+        }
+        let tv: Vec<u16> = REC.with(|r| r.borrow().trace.clone());
+        let same_trace = tv == t0;
+        REC.with(|r| r.borrow_mut().reference = tv.clone());
+        let names_tbl: Vec<String> = REC.with(|r| r.borrow().names.clone());
+        let trace: Vec<&str> = tv.iter().map(|i| names_tbl[*i as usize].as_str()).collect();
+        let target = u.outcome.clone();
+        let vthr = bisect(|b| {
+            let t = tag(&run(&mut env2, prog, Some(b), false).outcome, &target);
+            t == "same" || t == "diff-captured-debug"
+        });
+        let mut runs = vec![];
+        if let Some(vthr) = vthr {
+            for b in few_budgets(vthr) {
+                let r = run(&mut env2, prog, Some(b), false);
+                runs.push(json!([b, tag(&r.outcome, &target), r.levels.map(|x| x.0), r.levels.map(|x| x.1), r.n, r.mismatch as u8]));
+            }
+        }
+        variants.push(json!({"name": v, "same_trace": same_trace, "trace": if same_trace { String::new() } else { trace.join(" ") },
+                             "thr": vthr, "runs": runs}));
+    }
+    res["variants"] = json!(variants);
+    REC.with(|r| {
+        let mut r = r.borrow_mut();
+        r.cache.clear();
+        r.reference = t0.to_vec();
+    });
 }
 
 const EXTREMES: [u64; 7] = [
@@ -292,7 +581,7 @@ const EXTREMES: [u64; 7] = [
     u64::MAX,
 ];
 
-fn run_prog(prog: &Prog, thorough: bool) -> serde_json::Value {
+fn run_prog(prog: &Prog, thorough: bool, with_extras: bool) -> serde_json::Value {
     REC.with(|r| {
         let mut r = r.borrow_mut();
         r.cache.clear();
@@ -332,7 +621,7 @@ fn run_prog(prog: &Prog, thorough: bool) -> serde_json::Value {
     };
 
     let unl = match &target {
-        Outcome::Ok(s) => json!({"t": "ok", "out": s}),
+        Outcome::Ok(s, _) => json!({"t": "ok", "out": s}),
         Outcome::Err(k, m) => json!({"t": "err", "kind": k, "msg": m}),
         Outcome::Panic(m) => json!({"t": "panic", "msg": m}),
     };
@@ -346,7 +635,12 @@ fn run_prog(prog: &Prog, thorough: bool) -> serde_json::Value {
     }
 
     // threshold by bisection (assumes monotone; the scan below checks it)
-    let same = |env: &mut Environment<'static>, b: u64| run(env, prog, Some(b), false).outcome == target;
+    let same = |env: &mut Environment<'static>, b: u64| {
+        // the threshold is located on the result proper; a Debug form of the captured state that
+        // differs is reported by the scan as its own finding
+        let t = tag(&run(env, prog, Some(b), false).outcome, &target);
+        t == "same" || t == "diff-captured-debug"
+    };
     let mut hi: u64 = 1;
     let mut found = same(&mut env, 0);
     let thr: Option<u64> = if found {
@@ -376,7 +670,14 @@ fn run_prog(prog: &Prog, thorough: bool) -> serde_json::Value {
     };
     let _ = found;
     res["thr"] = json!(thr);
-    let Some(thr) = thr else { return res };
+    let Some(thr) = thr else {
+        // what a very large budget gives instead (e.g. an output that depends on the budget)
+        let big = run(&mut env, prog, Some(1 << 40), false);
+        let big2 = run(&mut env, prog, Some((1 << 40) + 1), false);
+        res["no_thr_tag"] = json!(tag(&big.outcome, &target));
+        res["no_thr_budget_dependent"] = json!(big.outcome != big2.outcome);
+        return res;
+    };
 
     // budgets to scan
     let mut budgets: Vec<u64> = vec![];
@@ -447,17 +748,20 @@ fn run_prog(prog: &Prog, thorough: bool) -> serde_json::Value {
     for b in [thr, thr + 3, thr.saturating_sub(1), 1 << 63] {
         let a = run(&mut env, prog, Some(b), false);
         let c = run(&mut env, prog, Some(b), false);
-        // a fresh environment as well
-        let d = match build_env(prog) {
+        // a fresh environment as well; the Debug forms of the environment list the templates in
+        // the order of a randomly seeded hash map, so the fresh environment's render is compared
+        // with the fresh environment's own unlimited render
+        let fresh_ok = match build_env(prog) {
             Ok(mut env2) => {
                 REC.with(|r| r.borrow_mut().cache.clear());
+                let u = run(&mut env2, prog, None, true);
                 let d = run(&mut env2, prog, Some(b), false);
                 REC.with(|r| r.borrow_mut().cache.clear());
-                d
+                tag(&d.outcome, &u.outcome) == tag(&a.outcome, &target) && d.levels == a.levels && d.n == a.n
             }
-            Err(_) => a.clone(),
+            Err(_) => true,
         };
-        if a != c || a != d {
+        if a != c || !fresh_ok {
             rep = format!("diff:{}", b);
             break;
         }
@@ -468,7 +772,7 @@ fn run_prog(prog: &Prog, thorough: bool) -> serde_json::Value {
             let env_ref: &Environment<'static> = &env;
             let plain = guarded(|| env_ref.get_template(&prog.templates[0].0).and_then(|t| t.render(ctx)));
             let agrees = match (&plain, &a.outcome) {
-                (Ok(Ok(s)), Outcome::Ok(s2)) => s == s2,
+                (Ok(Ok(s)), Outcome::Ok(s2, _)) => s == s2,
                 (Ok(Err(e)), Outcome::Err(k, _)) => k.split('>').next() == Some(format!("{:?}", e.kind()).as_str()),
                 (Err(_), Outcome::Panic(_)) => true,
                 _ => false,
@@ -480,6 +784,9 @@ fn run_prog(prog: &Prog, thorough: bool) -> serde_json::Value {
         }
     }
     res["rep"] = json!(rep);
+    if with_extras && !matches!(target, Outcome::Panic(_)) {
+        extras(&mut env, prog, thr, &t1, &mut res);
+    }
     res
 }
 
@@ -684,6 +991,42 @@ fn swallow_programs(v: &mut Vec<Prog>) {
     }
 }
 
+/// programs that put every observable rendering of the engine's own objects into the output:
+/// nothing of it may depend on the budget
+fn observer_programs(v: &mut Vec<Prog>) {
+    let obs = [
+        "{{ debug() }}", "<pre>{{ debug() }}</pre>{{ 1 }}{{ debug() }}", "{{ debug(a) }}{{ debug(a, xs) }}{{ debug(items) }}",
+        "{{ dbgstate() }}", "{{ dbgstate(true) }}", "{{ dbgenv() }}", "{{ dbgstate()|length }}{{ debug()|length }}",
+        "{% block a %}x{% endblock %}{{ self }}{{ self.a }}{{ debug() }}", "{% for x in xs %}{{ loop }}{{ debug(loop) }}{% endfor %}",
+        "{% for x in xs %}{{ debug() }}{% endfor %}", "{% set ns = namespace(q=1) %}{% set ns.r = 2 %}{{ ns }}{{ namespace() }}{{ debug(ns) }}",
+        "{% macro m(x, y=2) %}{{ debug() }}{{ caller }}{% endmacro %}{{ m }}{{ debug(m) }}{{ m(1) }}{% call m(2) %}c{% endcall %}",
+        "{{ range }}{{ debug(range, dict, debug) }}{{ debug }}", "{{ xs }}{{ debug(xs|map('string')) }}{{ debug(range(3)) }}{{ debug(s|safe) }}",
+        "{% set z %}{{ debug() }}{% endset %}{{ z|length }}{{ z }}", "{% with q = 1 %}{{ debug() }}{% endwith %}{% filter upper %}{{ dbgstate() }}{% endfilter %}",
+        "{{ debug(missing) }}{{ debug(none) }}{{ debug(true) }}{{ debug(1.5) }}{{ debug('s') }}{{ debug({'k': [1, {'n': none}]}) }}",
+        "{% autoescape true %}{{ debug() }}{{ dbgstate() }}{% endautoescape %}",
+    ];
+    for (i, src) in obs.iter().enumerate() {
+        v.push(single(&format!("observer:single:{}", i), src));
+    }
+    v.push(prog("observer:include", "", 0, &[("main", "{% include 'inc' %}{{ debug() }}".to_string()), ("inc", "{{ debug() }}{{ dbgstate() }}".to_string())]));
+    v.push(prog("observer:inherit", "", 0, &[
+        ("main", "{% extends 'base' %}{% block a %}{{ debug() }}[{{ super() }}]{{ self }}{% endblock %}".to_string()),
+        ("base", "<{% block a %}{{ dbgstate(true) }}{% endblock %}>{{ debug() }}".to_string())]));
+    v.push(prog("observer:import", "", 0, &[("main", "{% import 'lib' as lib %}{{ lib }}{{ debug(lib) }}{{ lib.m }}{{ lib.m() }}".to_string()),
+                                           ("lib", "{% macro m() %}{{ debug() }}{% endmacro %}{% set exported = 1 %}".to_string())]));
+    // errors raised under a budget: every text form must equal the unlimited run's
+    let failing = [
+        "line1\n{{ 1 }}\n{{ nofn() }}\nline4", "{% for x in xs %}\n  {{ x }}\n  {% if x == 2 %}{{ x // 0 }}{% endif %}\n{% endfor %}",
+        "{% macro m(v) %}\n{{ v + 'x' }}{% endmacro %}\n{{ m(1) }}", "{{ debug() }}{{ name.x.y }}", "{{ xs|join(1, 2, 3) }}", "{{ 'a'|int }}",
+    ];
+    for (i, src) in failing.iter().enumerate() {
+        v.push(single(&format!("observer:error:{}", i), src));
+    }
+    v.push(prog("observer:error:include", "", 0, &[("main", "a\n{% include 'inc' %}".to_string()), ("inc", "x\n{{ 1 // 0 }}".to_string())]));
+    v.push(prog("observer:error:super", "", 0, &[("main", "{% extends 'base' %}{% block a %}{{ super()|upper }}{% endblock %}".to_string()),
+                                                 ("base", "{% block a %}\n{{ nofn() }}{% endblock %}".to_string())]));
+}
+
 fn fixed_programs(thorough: bool) -> Vec<Prog> {
     let mut v = vec![];
     // A. straight-line
@@ -813,6 +1156,7 @@ fn fixed_programs(thorough: bool) -> Vec<Prog> {
                   ("base", base.to_string()), ("inc", "I{{ probe() }}".to_string())]));
     edge_programs(&mut v);
     swallow_programs(&mut v);
+    observer_programs(&mut v);
     // G. renders that fail without fuel as well
     let failing = [
         "A{{ 1 }}{{ nofn() }}B", "{% for x in range(3) %}{{ x }}{% if x == 1 %}{{ 1 // 0 }}{% endif %}{% endfor %}",
@@ -964,8 +1308,8 @@ fn random_program(rng: &mut Rng, idx: usize) -> Prog {
     p
 }
 
-fn emit(p: &Prog, thorough: bool, out: &mut impl Write) {
-    let res = run_prog(p, thorough);
+fn emit(p: &Prog, thorough: bool, with_extras: bool, out: &mut impl Write) {
+    let res = run_prog(p, thorough, with_extras);
     let case = hex(serde_json::to_string(p).unwrap().as_bytes());
     writeln!(out, "{}\t{}", case, res).unwrap();
 }
@@ -980,19 +1324,21 @@ fn main() {
         Some("gen") => {
             let thorough = args.get(2).map(|s| s == "thorough").unwrap_or(false);
             for p in fixed_programs(thorough) {
-                emit(&p, thorough, &mut out);
+                // entry points / configuration / environment variants: once per shape
+                let extras = !p.swallow && (p.group.is_empty() || p.k == 0);
+                emit(&p, thorough, extras, &mut out);
             }
             let mut rng = Rng::new(seed_from_env());
             let n = if thorough { 25000 } else { 1500 };
             for i in 0..n {
                 let p = random_program(&mut rng, i);
-                emit(&p, thorough, &mut out);
+                emit(&p, thorough, i < if thorough { 3000 } else { 300 }, &mut out);
             }
         }
         Some("one") => {
             let p: Prog = serde_json::from_slice(&unhex(&args[2])).expect("bad case");
             let thorough = std::env::var("VERIF_TIER").map(|t| t == "thorough").unwrap_or(false);
-            emit(&p, thorough, &mut out);
+            emit(&p, thorough, true, &mut out);
         }
         _ => {
             eprintln!("usage: c13 gen <quick|thorough> | c13 one <hex>");
